@@ -327,6 +327,17 @@ def run(ctx):
                     ctx.ok("C01-R3", "every `-= 1` on a duration comes from an iterator filtered by `> 1`", cm.loc_of(st["span"]))
                 else:
                     ctx.fail("C01-R3", fl.path, "decrement", "a duration element is decremented without a `> 1` filter", cm.loc_of(st["span"]))
+    # one entry per state: whatever estimate_duration_with_frame_length returns without going through
+    # the per-state estimate is a constant vector with exactly len(duration_params) entries
+    flb = p.body(DE + "estimate_duration_with_frame_length")
+    if flb is not None:
+        ebf = ExprBuilder(flb)
+        for bb, e, item in paths.return_exprs(flb, ebf):
+            if e[0] == "call" and e[1].endswith("from_elem") and len(e[2]) == 2:
+                if e[2][1][0] == "len" and show(e[2][1][1]) == "duration_params" and e[2][0][0] == "c" and e[2][0][1] >= 1:
+                    ctx.ok("C01-R3", "the short-target fallback returns one frame for each of the len(duration_params) states", flb.loc())
+                else:
+                    ctx.fail("C01-R3", flb.path, "fallback length", "the fallback returns vec![%s; %s]: the duration vector must have one entry (>= 1) per state, i.e. len(duration_params) entries, or trailing states and labels are silently dropped" % (show(e[2][0]), show(e[2][1])[:60]), flb.loc())
     for fn in (DE + "create", DE + "create_with_alignment"):
         b = p.body(fn)
         if b is None:
